@@ -125,9 +125,31 @@ def typed_number(v, tag):
             "int16": np.int16}[tag](v)
 
 
-def build(qj):
+def mutate_inputs(keep):
+    """modify, in place, every mutable container that was handed to a constructor (the caller's own list / array):
+    a measurement is a snapshot of the readings and uncertainties it was recorded from"""
+    import numpy as np
+    for c in keep:
+        try:
+            if isinstance(c, np.ndarray):
+                if c.size:
+                    c *= 3
+                    c[0] = 77
+                    c[-1] = c[0]
+            elif isinstance(c, list):
+                for i in range(len(c)):
+                    c[i] = 77.0 if i % 2 else 0.5
+                c.append(5.0)
+                c.reverse()
+        except (ValueError, TypeError):
+            pass
+
+
+def build(qj, keep=None):
     """construct one quantity on the implementation from its JSON description; an optional trailing dict gives
-    name (str), via ("array": the quantity is an element of a MeasurementArray), etype (number type of the error)"""
+    name (str), via ("array": the quantity is an element of a MeasurementArray), etype (number type of the error),
+    buffer (a numpy array to be overwritten with the readings and handed to the constructor: a re-used acquisition
+    buffer).  [keep] collects the mutable containers handed to the constructor."""
     import qexpy as q
     from qexpy.data.data import Constant
     opts = qj[-1] if isinstance(qj[-1], dict) else {}
@@ -144,7 +166,14 @@ def build(qj):
             return q.Measurement(v, **kw) if e is None else q.Measurement(v, e, **kw)
         if t == "repeated":
             xs = [fx(h) for h in qj[1]]
-            xs = make_container(xs, qj[3])
+            if opts.get("buffer") is not None:
+                buf = opts["buffer"]
+                buf[:] = xs
+                xs = buf
+            else:
+                xs = make_container(xs, qj[3])
+            if keep is not None:
+                keep.append(xs)
             e = qj[2]
             if e is None:
                 return q.Measurement(xs, **kw)
@@ -156,6 +185,8 @@ def build(qj):
                     es = np.array(es)
                 elif et == "int" and all(float(x).is_integer() for x in es):
                     es = [int(x) for x in es]
+                if keep is not None:
+                    keep.append(es)
                 return q.Measurement(xs, es, **kw)
             return q.Measurement(xs, typed_number(fx(e), opts.get("etype", "float")), **kw)
         if t == "derived":                      # value * 1 is a DerivedValue with the same error
@@ -333,3 +364,22 @@ def pick_container(rng, xs, narrow=0.4):
         return rng.choice(["list", "ndarray"])
     ok = [c for c in CONTAINERS if c not in DTYPES or all(representable(x, DTYPES[c]) for x in xs)]
     return rng.choice(ok)
+
+
+def build_table(table, aliasing=None):
+    """the quantities of a table.  aliasing = None | "mutate" (every caller-side container is modified in place after
+    all quantities are recorded) | "buffer" (plain float64 reading arrays of one length are recorded one after the
+    other from ONE re-used numpy buffer, and the containers are modified afterwards as well)"""
+    import numpy as np
+    keep, objs, buffers = [], [], {}
+    for qj in table:
+        if aliasing == "buffer" and qj[0] == "repeated" and qj[3] in ("ndarray", "list") and qj[2] is None:
+            n = len(qj[1])
+            buf = buffers.setdefault(n, np.empty(n))
+            opts = dict(qj[-1]) if isinstance(qj[-1], dict) else {}
+            opts["buffer"] = buf
+            qj = [x for x in qj if not isinstance(x, dict)] + [opts]
+        objs.append(build(qj, keep if aliasing else None))
+    if aliasing:
+        mutate_inputs(keep)
+    return objs
